@@ -52,6 +52,54 @@ func init() {
 	extSchemas["(*regexp.Regexp).FindSubmatch"] = schemaFindSubmatch
 	extSchemas["(*regexp.Regexp).Match"] = schemaRegexpMatch
 	extSchemas["(*regexp.Regexp).MatchString"] = schemaRegexpMatch
+	extSchemas["(*sync.Mutex).Lock"] = schemaMutexLock
+	extSchemas["(*sync.Mutex).Unlock"] = schemaMutexUnlock
+	extSchemas["(*math/rand.Rand).Int63"] = schemaInt63
+}
+
+func mutexKey(x *Exec, v Val) string {
+	p, ok := v.(PtrVal)
+	if !ok || p.Obj == nil || p.Obj.Global == nil {
+		x.fail("sync.Mutex: only package-level mutexes are modelled")
+	}
+	return "held:" + p.Obj.Global.Pkg.Pkg.Name() + "." + p.Obj.Global.Name()
+}
+
+// sync.Mutex: ghost flag held(m); Lock requires it clear (no self-deadlock) and sets it, Unlock requires it set and clears it.
+func schemaMutexLock(x *Exec, st *State, fn *ssa.Function, args []Val, c *ssa.CallCommon) Val {
+	k := mutexKey(x, args[0])
+	held, _ := st.Ghost[k].(*Term)
+	if held == nil {
+		held = x.o.False()
+	}
+	x.oblige("lock", "Lock", []string{"C19.lock"}, "mutex is not already held by this goroutine", st.Guard, x.o.Not(held))
+	st.Ghost[k] = x.o.True()
+	return nil
+}
+
+func schemaMutexUnlock(x *Exec, st *State, fn *ssa.Function, args []Val, c *ssa.CallCommon) Val {
+	k := mutexKey(x, args[0])
+	held, _ := st.Ghost[k].(*Term)
+	if held == nil {
+		held = x.o.False()
+	}
+	x.oblige("lock", "Unlock", []string{"C19.lock", "C18.nopanic"}, "mutex is held when unlocked", st.Guard, held)
+	st.Ghost[k] = x.o.False()
+	return nil
+}
+
+// (*rand.Rand).Int63: some value in [0, 2^63); touches only its receiver.
+func schemaInt63(x *Exec, st *State, fn *ssa.Function, args []Val, c *ssa.CallCommon) Val {
+	o := x.o
+	seq := x.callSeq
+	x.callSeq++
+	v := o.TypedFresh(fmt.Sprintf("int63.%d", seq), IntTy{64, true})
+	if o.M.BV {
+		x.assume(o.BVCmp("bvsge", v, o.BVi(0, 64)))
+	} else {
+		x.assume(o.Ge(v, o.Int(0)))
+	}
+	return v
 }
 
 // variadic arguments arrive as a slice built from a local array
@@ -226,6 +274,10 @@ func (x *Exec) digitsOf(v *Term, base int64, maxDigits int, width int, lower boo
 	n := o.Int(int64(maxDigits))
 	for j := maxDigits - 1; j >= 1; j-- {
 		n = o.Ite(o.Lt(v, o.IntBig(pows[j])), o.Int(int64(j)), n)
+	}
+	if b := o.Bounds(v); width >= 1 && width <= maxDigits && b.hi != nil && b.hi.Cmp(pows[width]) < 0 {
+		n = o.Int(int64(width)) // the value always fits the padded width: exactly `width` characters
+		r = r[:width]
 	}
 	if width > maxDigits {
 		maxDigits = width
